@@ -15,8 +15,8 @@
 (***************************************************************************)
 EXTENDS TraceBase, TLC, Json, IOUtils
 
-VARIABLES tid, l, pre, post, reqs, hk, mh, v
-tvars == <<tid, l, pre, post, reqs, hk, mh, v>>
+VARIABLES tid, l, pre, post, reqs, hk, mh, sh, v
+tvars == <<tid, l, pre, post, reqs, hk, mh, sh, v>>
 
 TraceLog_ == ndJsonDeserialize(IOEnv.TRACE_FILE)
 N == Len(TraceLog_)
@@ -41,7 +41,7 @@ SameBag(a, b) == AsBag(a) = AsBag(b)
 CallKey(e) == <<e.ev, e.typ, e.before, e.t, IF e.typ = "session" THEN e.s ELSE e.m>>
 IsPre(e) == e.before \/ (e.typ = "session")          \* after-session hooks run before the session-end record
 
-Init == /\ tid \in 1..N /\ l = 1 /\ pre = <<>> /\ post = <<>> /\ reqs = <<>> /\ hk = 0 /\ mh = <<>>
+Init == /\ tid \in 1..N /\ l = 1 /\ pre = <<>> /\ post = <<>> /\ reqs = <<>> /\ hk = 0 /\ mh = <<>> /\ sh = <<>>
         /\ v = [C13 |-> "ok"]
 
 \* an occurrence: all after-calls owed by the previous one are in; its before-calls are exactly the expected
@@ -56,6 +56,8 @@ ReqOf(obj) == LET i == FirstIdx(reqs, LAMBDA r : r[1] = obj) IN IF i = 0 THEN -1
 Step ==
   /\ l <= Len(Ev) /\ l' = l + 1 /\ tid' = tid
   /\ hk' = IF Ev[l].k = "hook" THEN hk + 1 ELSE hk
+  \* every session hook call of the run (judged against the configured sessions when the simulation ends)
+  /\ sh' = IF Ev[l].k = "hook" /\ Ev[l].typ = "session" THEN Append(sh, CallKey(Ev[l])) ELSE sh
   \* market-step hook calls since the market's last clock step (judged again when its clock moves, see "tick")
   /\ mh' = IF Ev[l].k = "hook" /\ Ev[l].typ = "market" THEN Append(mh, CallKey(Ev[l]))
            ELSE IF Ev[l].k = "tick" THEN SelectSeq(mh, LAMBDA c : c[5] # Ev[l].m) ELSE mh
@@ -125,8 +127,16 @@ Step ==
                                          e.t >= 1 /\ lacks(owedA), "C13:after-step-hook-not-called-in-a-step")]
             /\ UNCHANGED <<pre, post, reqs>>
        [] e.k = "simE" ->
+            \* every configured session - also one of no steps - begins and ends: over the whole run the session hooks called are
+            \* those the sessions of the CONFIGURATION owe (independent of the session records of the logger)
+            LET owedS == FoldLeft(LAMBDA acc, i :
+                             LET st == Hd.sess[i]  t1 == st[7] + st[1] - 1 IN
+                             acc \o Calls(Expected("session", TRUE, st[7], i - 1, FALSE), "session", TRUE, st[7], i - 1)
+                                 \o Calls(Expected("session", FALSE, t1, i - 1, FALSE), "session", FALSE, t1, i - 1),
+                             <<>>, [i \in 1..Len(Hd.sess) |-> i]) IN
             /\ v' = [Occ(v, <<>>, "simulation-end") EXCEPT
-                       !.C13 = F(@, Hd.twin /\ hk # Len(Hd.nolog), "C13:more-hook-calls-without-logger")]
+                       !.C13 = F(F(@, Hd.twin /\ hk # Len(Hd.nolog), "C13:more-hook-calls-without-logger"),
+                                 ~SameBag(sh, owedS), "C13:session-hooks-over-the-run")]
             /\ UNCHANGED <<pre, post, reqs>>
        [] e.k = "abort" ->
             /\ v' = [v EXCEPT !.C13 = F(@, e.phase = "hooks", "C13:run-aborted-in-" \o e.phase \o "-" \o e.exc)]
